@@ -9,8 +9,8 @@ const evalAstShape = "eval_ast returns, with a nil error, a List with exactly on
 
 var exemptionsC04 = map[string]string{
 	`lisp.EVAL | panic Errorf("debugger command not handled %d",&local[:])`:                                     "reached only when a host Stepper callback returns a value outside debuggertypes.Command's declared constants; C18.enum checks the switch covers every declared constant",
-	`lisp.EVAL | index eval_ast(local,macroexpand(local,φ,local)#0,local)#0.(types.List).Val[0]`:                evalAstShape,
-	`lisp.EVAL | slice eval_ast(local,macroexpand(local,φ,local)#0,local)#0.(types.List).Val[1:]`:               evalAstShape,
+	`lisp.EVAL | index eval_ast(p0,macroexpand(p0,φ,φ)#0,φ)#0.(types.List).Val[0]`:                              evalAstShape,
+	`lisp.EVAL | slice eval_ast(p0,macroexpand(p0,φ,φ)#0,φ)#0.(types.List).Val[1:]`:                             evalAstShape,
 	`lisp.do | slice p1.(types.List).Val[p2:len(p1.(types.List).Val)+p3]`:                                       "every call site passes (from,to) in {(2,-1),(1,-1),(0,0),(0,-1)} with a list that has at least `from` elements (head symbol and binding vector were read by the caller) and the function returned already when len(lst) == from; the call-site constants are checked by C01.body",
 	`lisp.do | index eval_ast(p0,local,p4)#0.(types.List).Val[len(eval_ast(p0,local,p4)#0.(types.List).Val)-1]`: evalAstShape + "; the slice evaluated is non-empty because len(lst) != from was tested",
 	`lisp.do | index p1.(types.List).Val[len(p1.(types.List).Val)-1]`:                                           "len(lst) > from >= 0 at this point (see the slice above)",
